@@ -39,6 +39,7 @@ type Result struct {
 	MaxLagNoError                                  int
 	BoundaryLagHits                                int // a watcher survived lag == initial capacity exactly
 	ResumeAccepted, ResumeRejected                 int
+	NoopBookmarksResumed                           int
 	ResumeMustAccept, ResumeMustReject             int
 	TailChecked, GarbageRejected, ForgedAccepted   int
 	FailedWrites                                   int
@@ -57,6 +58,10 @@ type swatch struct {
 	maxLag int
 	got    int // last received log idx + 1 (or start)
 	sawErr bool
+	// noopBM: the bookmark of the opening Noop of a watch that was itself started from a bookmark / with a tail and asked for a
+	// bootstrap bookmark; chained: a watch resumed from it has been opened
+	noopBM  state.Bookmark
+	chained bool
 }
 
 type runner struct {
@@ -436,10 +441,24 @@ func (r *runner) recv(sw *swatch, m int) int {
 				}
 
 				if re.Idx >= 0 {
+					if sw.noopBM != nil && !sw.chained { // tail watch: its first replayed event tells where it started
+						r.chainFromNoop(sw, re.Idx-1)
+					}
+
 					sw.got = re.Idx + 1
 					r.noteBookmark(re.Idx, ev.Bookmark, sw.rec.Name)
 				}
 			case state.Bootstrapped, state.Noop:
+				// the opening Noop of a watch that replays history (from a bookmark / a tail) carries the bookmark of the position
+				// just before its first replayed event: resuming from it must yield what this stream delivers after it
+				if ev.Type == state.Noop && len(ev.Bookmark) > 0 && (sw.rec.FromIdx >= -1 || sw.rec.Tail > 0) && !sw.rec.AnyStart && sw.rec.Kind != "single" {
+					sw.noopBM = append(state.Bookmark(nil), ev.Bookmark...)
+
+					if sw.rec.FromIdx >= -1 {
+						r.chainFromNoop(sw, sw.rec.FromIdx)
+					}
+				}
+
 				// carries the bookmark of the position just before the start (scripts have no concurrent writes, so Lo == Hi == s)
 				if len(ev.Bookmark) > 0 && sw.rec.Lo == sw.rec.Hi && sw.rec.FromIdx == -2 && sw.rec.Tail == 0 {
 					if _, known := r.bms[sw.rec.Lo-1]; !known {
@@ -568,7 +587,15 @@ func (r *runner) resumeStep() {
 		rec.ID = r.ids[r.rng.IntN(len(r.ids))]
 	}
 
-	sw, err := r.tryOpen(rec, []state.WatchOption{state.WithStartFromBookmark(bm)}, []state.WatchKindOption{state.WithKindStartFromBookmark(bm)})
+	kopts := []state.WatchKindOption{state.WithKindStartFromBookmark(bm)}
+
+	if rec.Kind != "single" && r.rng.IntN(2) == 0 {
+		rec.BootBM = true
+
+		kopts = append(kopts, state.WithBootstrapBookmark(true))
+	}
+
+	sw, err := r.tryOpen(rec, []state.WatchOption{state.WithStartFromBookmark(bm)}, kopts)
 
 	age := w - i // number of log entries from the bookmarked one (inclusive) to the end
 	mustAccept := age <= c.Initial-c.Gap && i >= 0
@@ -597,6 +624,36 @@ func (r *runner) resumeStep() {
 	r.res.ResumeAccepted++
 	sw.mode = []int{0, 0, 1}[r.rng.IntN(3)]
 	// accepted => exact continuation G[i+1:]; judged by CheckRec at the end (and a wrong first event is reported there)
+}
+
+// chainFromNoop opens a watch from the bootstrap bookmark (opening Noop) of sw, which stands for log index idx: the new watch must
+// either be rejected loudly (only outside the always-accepted window) or deliver exactly G[idx+1:].
+func (r *runner) chainFromNoop(sw *swatch, idx int) {
+	sw.chained = true
+
+	rec := &Rec{Kind: sw.rec.Kind, FromIdx: idx}
+	rec.Name = fmt.Sprintf("w%d-resume-from-noop-of-%s@%d", len(r.ws), sw.rec.Name, idx)
+
+	nsw, err := r.tryOpen(rec, nil, []state.WatchKindOption{state.WithKindStartFromBookmark(sw.noopBM)})
+	r.tracef("resume %s err=%v", rec.Name, err)
+
+	if err != nil {
+		// a loud rejection is allowed for positions outside the always-accepted window (the most recent initial-gap events),
+		// e.g. the position just before the oldest event a maximal tail replays
+		age := r.w.Len() - idx
+
+		switch {
+		case !state.IsInvalidWatchBookmarkError(err):
+			r.bad("bookmark-reject-wrong-class", "%s: rejected with a non invalid-bookmark error: %v", rec.Name, err)
+		case age <= r.cfg.Initial-r.cfg.Gap && idx >= 0:
+			r.bad("bootstrap-bookmark-not-usable", "%s: the bookmark of the opening Noop of %s (position %d of %d, within the always-accepted window) was rejected: %v", rec.Name, sw.rec.Name, idx, r.w.Len(), err)
+		}
+
+		return
+	}
+
+	nsw.mode = 0
+	r.res.NoopBookmarksResumed++
 }
 
 func abs(a int) int {
@@ -629,7 +686,15 @@ func (r *runner) tailStep() {
 	match := func(e Entry) bool { return id == "" || e.ID == id }
 	rec.SetTailCandidates(TailCandidates(r.w.Log(), w, n, c.Initial, c.Max, c.Gap, match))
 
-	sw := r.open(rec, []state.WatchOption{state.WithTailEvents(n)}, []state.WatchKindOption{state.WithKindTailEvents(n)})
+	kopts := []state.WatchKindOption{state.WithKindTailEvents(n)}
+
+	if rec.Kind != "single" && r.rng.IntN(2) == 0 {
+		rec.BootBM = true
+
+		kopts = append(kopts, state.WithBootstrapBookmark(true))
+	}
+
+	sw := r.open(rec, []state.WatchOption{state.WithTailEvents(n)}, kopts)
 	if sw == nil {
 		return
 	}
